@@ -156,6 +156,11 @@ def run_case(tid, cfg, seed):
     n, nc = cfg["n"], cfg["ncols"]
     Amat, smin, smax = make_matrix(cfg["cls"], n, tuple(cfg["bA"]), wd, g)
     herm = cfg["cls"] in ("spd", "indef")
+    if cfg.get("symscale"):
+        # rows and columns of very different scale (D A D, D = diag(10 .. 100)): the case a diagonal preconditioner is made for
+        Dsc = torch.logspace(1.0, 2.0, n, dtype=torch.float64).to(wd)
+        Amat = Dsc[:, None] * Amat * Dsc[None, :]
+        smin, smax = smin * 1e2, smax * 1e4
     B = torch.randn(*cfg["bB"], n, nc, generator=g, dtype=torch.float64)
     if dtype.is_complex:
         B = B + 1j * torch.randn(*cfg["bB"], n, nc, generator=g, dtype=torch.float64)
@@ -236,6 +241,9 @@ def run_case(tid, cfg, seed):
             kmin = smin - (0.3 * 1.2 if (E is not None and cfg["cls"] != "spd") else 0.0)
             kmax = smax + 2.0 * 1.2
             thr = 10.0 * torch.clamp(rtol * kmax * bn, min=atol) / kmin * (30 if dtype == torch.float32 else 1)
+            if cfg.get("symscale") and cfg["method"] == "cg" and opts.get("posdef") is True:
+                # plain (preconditioned) cg on A itself: the stopping test is on the residual of A X = B in the 2-norm, whatever the preconditioner
+                thr = 10.0 * torch.clamp(rtol * bn, min=atol)
         verd.append(["residual_within_tolerance", bool(torch.all(rn <= thr))])
         errthr = (thr / 0.2).unsqueeze(-2)
         verd.append(["agrees_with_dense_reference", bool(torch.all((Xw - ref).abs() <= errthr + 1e-12))])
@@ -301,6 +309,12 @@ def case_list(thorough, rng):
                 "bicgstab": [{"posdef": True}, {"posdef": False}, {"resid_calc_every": 1}, {"resid_calc_every": 3}, {"precond_l": "jacobi"}, {"precond_r": "jacobi"},
                              {"precond_l": "jacobi", "precond_r": "jacobi"}],
                 "gmres": [{"posdef": True}, {"posdef": False}]}
+    # badly scaled positive-definite systems with and without the diagonal preconditioner (no normal equations: posdef given)
+    for o in ({"posdef": True, "precond": "jacobi"}, {"posdef": True, "precond": "jacobi", "rtol": 1e-9, "atol": 1e-12}, {"posdef": True, "max_niter": 400}):
+        for n_ in (6, 12):
+            for nc_ in (1, 3):
+                out.append(dict(method="cg", mode="none", cls="spd", dtype="float64", op="dense", bA=[], bB=[], bE=[], bM=[], n=n_, ncols=nc_,
+                                zeroB=False, must_silent=False, opts=dict(o), symscale=True))
     for method, vs in variants.items():
         for o in vs:
             for cls in (("spd",) if (method == "cg" or o.get("posdef")) else ("spd", "nonherm")):
